@@ -387,7 +387,7 @@ pub fn run(run: &Run) {
         2 => Just(Op::Reopen),
     ];
     let case = prop::collection::vec(op, 1..=len).prop_map(|ops| Case { ops });
-    run.prop("history", run.tier.pick(60, 1200), sh, case, run_case);
+    run.prop("history", run.tier.pick(240, 3000), sh, case, run_case);
 
     // corruption sweep: enumerate offsets (quick: every 4th) × masks
     let masks = [0x01u8, 0x80, 0xff];
